@@ -231,16 +231,57 @@ pub fn replay(cases: &[Value], out: &mut Out) {
 		let methods: Methods = apis_generated::merged(&log).into();
 		let sent = Arc::new(Mutex::new(vec![]));
 		let (back, rx) = mpsc::unbounded_channel();
-		let client: Client = ClientBuilder::default()
-			.request_timeout(Duration::from_secs(20))
-			.build_with_tokio(LoopTx { methods, back, sent: sent.clone() }, LoopRx(rx));
+		let connect = |back, rx| -> Client {
+			ClientBuilder::default().request_timeout(Duration::from_secs(20)).build_with_tokio(LoopTx { methods: methods.clone(), back, sent: sent.clone() }, LoopRx(rx))
+		};
+		let mut client: Client = connect(back, rx);
 		for (i, c) in cases.iter().enumerate() {
 			for k in 0..k_concretisations() {
 				let mut rng = rng_for(i, k);
+				// One case in nine follows a call of the same stub that its caller gave up right after sending it (a timeout
+				// around the call, a select!) and that the server answers anyway: the calls after it are ordinary calls.
+				if (i + k) % 9 == 4 && c["kind"] != "sub" {
+					abandoned_call_first(c, &client, &log, &mut rng_for(i, k + 1000)).await;
+				}
 				one_case(i, k, c, &client, &log, &sent, &mut rng, out).await;
+				if !client.is_connected() {
+					// (reported by the case that found it gone; the cases after it get a connection of their own)
+					let (back, rx) = mpsc::unbounded_channel();
+					client = connect(back, rx);
+				}
 			}
 		}
 	});
+}
+
+/// Start the case's call through the generated stub, give the future up as soon as the request is on its way, and wait until
+/// the server has run the method (or, where none runs, a moment) so that its late answer has reached the client.
+async fn abandoned_call_first(c: &Value, client: &Client, log: &Log, rng: &mut StdRng) {
+	let flags = strs(&c["flags"]);
+	let pres = strs(&c["pres"]);
+	let (pk, ns, kind) = (c["pk"].as_str().unwrap(), c["ns"].as_str().unwrap(), c["kind"].as_str().unwrap());
+	if kind == "alias" {
+		return;
+	}
+	let id = shape_id(&flags, pk, ns);
+	let vals: Vec<Option<Value>> = (0..flags.len()).map(|s| if pres[s] == "value" { Some(gen_slot(s, rng)) } else { None }).collect();
+	log.lock().unwrap().clear();
+	{
+		let fut = apis_generated::dispatch(&id, client, kind, &vals);
+		tokio::pin!(fut);
+		// polled until the request has left the front end (a few turns), then dropped
+		for _ in 0..3 {
+			if futures_util::poll!(fut.as_mut()).is_ready() {
+				break;
+			}
+			tokio::task::yield_now().await;
+		}
+	}
+	let t0 = std::time::Instant::now();
+	while log.lock().unwrap().is_empty() && t0.elapsed() < Duration::from_millis(if c["ok"] == json!(true) { 2000 } else { 20 }) {
+		tokio::time::sleep(Duration::from_millis(1)).await;
+	}
+	tokio::time::sleep(Duration::from_millis(3)).await;
 }
 
 #[allow(clippy::too_many_arguments)]
